@@ -335,3 +335,22 @@ Qed.
 
 Lemma erase_keeps_players g : g_players (erase g) = g_players g /\ g_meta (erase g) = g_meta g.
 Proof. split; reflexivity. Qed.
+
+(* ---------- what a payment leaves alone in the table status ---------- *)
+Definition qv (g : gstate) :=
+  (g_meta g, g_result g,
+   (st_minibet (g_st g), st_pots (g_st g), st_round (g_st g), st_burned (g_st g),
+    st_board (g_st g), st_prs (g_st g), st_dpos (g_st g), st_cur (g_st g), st_event (g_st g), st_last (g_st g))).
+
+Lemma qv_become_raiser g i : qv (become_raiser g i) = qv g. Proof. reflexivity. Qed.
+Lemma qv_reset_acted g : qv (reset_acted g) = qv g. Proof. reflexivity. Qed.
+
+Lemma qv_pay g i chips w : qv (pay g i chips w) = qv g.
+Proof.
+  unfold pay. destruct (p_stack (get_p g i) <=? chips).
+  - destruct w; [|reflexivity].
+    match goal with |- qv (if ?c then become_raiser ?g3 i else reset_acted ?g3) = _ =>
+      transitivity (qv g3); [destruct c; [apply qv_become_raiser|apply qv_reset_acted]|] end.
+    match goal with |- context [if ?c then with_st _ _ else _] => destruct c end; reflexivity.
+  - destruct (w && _); [rewrite qv_become_raiser|]; reflexivity.
+Qed.
